@@ -222,6 +222,9 @@ pub struct ReindexBatch {
 impl HashColumn {
 	pub fn get(&self, key: &Key, log: &impl LogQuery) -> Result<Option<(Value, u32)>> {
 		let tables = self.tables.read();
+		// Taken before the first search: entries move from a queued table into the current index
+		// and the queued table is dropped under this lock only.
+		let reindex = self.reindex.read();
 		let values = self.as_ref(&tables.value);
 		if let Some((tier, rc, value)) = self.get_in_index(key, &tables.index, values, log)? {
 			if self.collect_stats {
@@ -229,7 +232,7 @@ impl HashColumn {
 			}
 			return Ok(Some((value, rc)))
 		}
-		for entry in &self.reindex.read().queue {
+		for entry in &reindex.queue {
 			if let ReindexEntry::Index(r) = entry {
 				if let Some((tier, rc, value)) = self.get_in_index(key, r, values, log)? {
 					if self.collect_stats {
